@@ -35,6 +35,15 @@ def run(ctx):
             if proved and ctx.tier == "thorough":
                 ctx.phase(ctx.leanchecker, MODULE)
             if not proved:
+                sk0 = os.path.join(vlib.LEAN, "GoNfsd", "Gen", "Skeleton.lean")
+                txt0 = open(sk0).read() if os.path.exists(sk0) else ""
+                i0 = txt0.find("def atomicUses")
+                for fn, what in re.findall(r'\("([^"]+)", 2, "([^"]*)"\)', txt0[i0:] if i0 >= 0 else ""):
+                    ctx.add_violation("unsynchronised-access:" + fn + ":" + what.split()[0],
+                                      "function %s touches memory that only sync/atomic synchronises with a plain access: %s" % (fn, what),
+                                      {"how": "table atomicUses regenerated from the whole module (translate skeleton, go/types); theorem "
+                                              "atomic_fields_are_only_touched_atomically no longer checks; under load the Go race detector reports the "
+                                              "access against the sync/atomic writers (stats.Op.Record)", "call_site": fn, "access": what})
                 bad = failing_handlers(ctx)
                 for fn in (bad or []):
                     if fn.startswith("mu_"):
@@ -96,11 +105,12 @@ def run(ctx):
     vlib.finish(
         ctx, "proof",
         "PARTIAL. Theorems: lockset discipline ⇒ conflicting accesses are separated by a release→acquire edge; for the control skeleton of every function of nfs/, dir/, shrinker/ "
-        "— regenerated from the source each run — no path uses an inode variable after the commit/abort that released its lock (path-sensitive abstract execution, decided by the kernel). "
+        "— regenerated from the source each run — no path uses an inode variable after the commit/abort that released its lock (path-sensitive abstract execution, decided by the kernel); "
+        "fields synchronised by sync/atomic alone are touched through sync/atomic or in function-private copies only, in every function of the module (table by go/types), which excludes races on them. "
         "Recorded lock events of concurrent runs are validated; the thorough tier runs the concurrent harness under the Go race detector (search only)",
         "static: every function's statements are classified (acquire / pointer copy / use / end of transaction / flag / control) and the table is decided in Lean; dynamic: lock traces of "
         "concurrent histories; thorough: go build -race of the harness, concurrent histories, any 'DATA RACE' report is a violation with the report as replay",
-        ["the Go memory model and go-journal's internals are outside; fields of FsState, ShrinkerSt (mutex) and stats (atomics) are not inode-variable accesses and are not classified",
+        ["the Go memory model and go-journal's internals are outside; fields of FsState are not inode-variable accesses and are not classified; the structs with their own mutex and the fields synchronised by sync/atomic have their own regenerated tables (mutexHandlers, atomicUses: a variable is taken as private to a function when it is a local built from a composite literal, make, new, a zero var, or a value parameter)",
          "passing or returning an inode pointer is not counted as an access; reading a field through it is"],
         partial=["C14 as a whole: the discipline is proved for the extracted skeletons only"])
 
